@@ -119,6 +119,29 @@ pub fn execute(job: &Job) -> Report {
     } else {
         rep.violations = oracle::check(job.oracle.as_deref().unwrap_or(&job.prop), &sc, &rr);
     }
+    if std::env::var("VERIF_DUMP").is_ok() {
+        for m in &rr.meta {
+            eprintln!("probe {} path {:?} out {} pos {}", m.id, m.path, m.out, m.pos);
+        }
+        for ((pid, c), h) in &rr.rec.probes {
+            let s: Vec<String> = h
+                .iter()
+                .map(|r| match r.kind {
+                    0 => format!("I{}", r.id % 1000),
+                    1 => format!("T{}@{}", r.id % 1000, r.ts),
+                    2 => format!("W{}", r.ts),
+                    3 => "fb".to_string(),
+                    4 => "TERM".to_string(),
+                    _ => "FAR".to_string(),
+                })
+                .collect();
+            eprintln!("  p{} {:?}: {}", pid, c, s.join(" "));
+        }
+        for (k, l) in &rr.rec.links {
+            let f = |v: &Vec<renoir::verif::ElemInfo>| v.iter().map(|e| match e.kind { 0 => "i".to_string(), 1 => format!("t{}", e.ts), 2 => format!("W{}", e.ts), 3 => "fb".into(), 4 => "TERM".into(), _ => "FAR".into() }).collect::<Vec<_>>().join(" ");
+            eprintln!("  link {:?}->{:?} (prev {}): sent [{}] recv [{}]", k.from, k.to, k.prev_block, f(&l.sent), f(&l.recv));
+        }
+    }
     let f = oracle::facts(&sc, &rr);
     rep.nontrivial = f.nontrivial && families::nontrivial(&job.prop, &sc, &rr);
     rep.steps = rr.outcome.steps;
